@@ -8,7 +8,7 @@ Local Open Scope string_scope.
 Definition mkpkg (hw : list hfile) : pkg := {| p_hw := hw; p_aux := []; p_destname := ""; p_dest := []; p_destaux := [] |}.
 Definition cmd_new_file (line file : string) (getset json : bool) : cmd :=
   {| c_sub := CNew; c_line := line; c_types := []; c_star := false; c_file := file; c_sepflag := false;
-     c_getset := getset; c_json := json; c_opt := false; c_ejson := false; c_etext := false; c_toonly := false; c_fromonly := false |}.
+     c_getset := getset; c_json := json; c_opt := false; c_short := false; c_ejson := false; c_etext := false; c_toonly := false; c_fromonly := false |}.
 
 Definition toks_of_files (r : option gfiles) : list (string * list (list string)) :=
   match r with Some fs => map (fun e => (fst e, map d_toks (a_decls (snd e)))) (listing fs) | None => [] end.
@@ -66,7 +66,7 @@ Definition hw_ng : list hfile :=
                     strct "Order" [IField (fld "id" "int")]]].
 Definition c_rest_client : cmd :=
   {| c_sub := CRest; c_line := "shoot rest -type=Client"; c_types := ["Client"]; c_star := false; c_file := ""; c_sepflag := false;
-     c_getset := false; c_json := false; c_opt := false; c_ejson := false; c_etext := false; c_toonly := false; c_fromonly := false |}.
+     c_getset := false; c_json := false; c_opt := false; c_short := false; c_ejson := false; c_etext := false; c_toonly := false; c_fromonly := false |}.
 Definition rest_out_ng : gfiles := match run_generate id_oracle (mkpkg hw_ng) [] c_rest_client with Some fs => fs | None => [] end.
 Lemma new_selects_generated :
   list_types_of CNew (mk_view hw_ng [] []) = ["Order"] /\
